@@ -57,7 +57,7 @@ Proof. vm_compute. reflexivity. Qed.
 
 (* ------------------------------------------------------------------ footnotes *)
 From Coq Require Import Permutation Sorted.
-From V Require Import Model.Footnotes Spec.FootnoteSpec Proofs.FootnoteProofs Proofs.FootnoteOrder Proofs.FootnoteResolve Proofs.FootnoteOmit.
+From V Require Import Model.Footnotes Spec.FootnoteSpec Proofs.FootnoteProofs Proofs.FootnoteOrder Proofs.FootnoteResolve Proofs.FootnoteOmit Proofs.FootnoteOnce.
 From V Require Spec.Valid.
 
 (* sort_perm_indep: the tree returned by process does not depend on the order in which the HashMap's
@@ -173,7 +173,23 @@ Theorem C15_appended_definitions_are_referenced : forall (fold pres : bytes -> b
 Proof. intros fold pres perm root P D. exact (appended_defs_referenced fold pres perm P root D). Qed.
 Print Assumptions C15_appended_definitions_are_referenced.
 
-(* NOT proved (kept visible; evaluated on every real final tree and every model result by the check):
+(* "a definition that is rendered exactly once": the second conjunct of C15_ix_contiguous_full_statement below, proved
+   WITHOUT its no_nested_defs and idempotence premises — the definitions at the tail of the processed root have pairwise
+   distinct names and each has been referenced (Spec.FootnoteSpec.defs_once_and_referenced). *)
+Theorem C15_definitions_once_and_referenced : forall (fold pres : bytes -> bytes) (perm : list fdef -> list fdef) root,
+  (forall x y, pres x = pres y -> fold x = fold y) ->
+  (forall m, Permutation (perm m) m) -> is_def root = false ->
+  defs_once_and_referenced (process fold pres perm root) = true.
+Proof. intros fold pres perm root C P D. exact (process_defs_once_and_referenced fold pres C perm P root D). Qed.
+Print Assumptions C15_definitions_once_and_referenced.
+
+(* non-vacuity: on the tree of C15_numbered_in_order_example both definitions are appended, b first *)
+Example C15_definitions_once_example :
+  map fdef_name (tail_part (nch (process idb idb idp w_order))) = [[x62]; [x61]] /\
+  defs_once_and_referenced (process idb idb idp w_order) = true.
+Proof. vm_compute. split; reflexivity. Qed.
+
+(* NOT proved as a whole (the second conjunct IS C15_definitions_once_and_referenced; kept visible; evaluated on every real final tree and every model result by the check):
    every reference left in the tree carries the number and name of exactly one appended definition,
    unreferenced definitions are absent, definitions sit at the tail of the root *)
 Definition C15_ix_contiguous_full_statement : Prop :=
